@@ -784,16 +784,16 @@ impl TypeInfo {
             ));
         }
         let ftype = self.function_to_functype(fdecl)?;
-        if self
-            .func_types
-            .insert(fdecl.name.clone(), Arc::new(ftype))
-            .is_some()
-        {
+        if self.func_types.contains_key(&fdecl.name) {
             return Err(TypeError::FunctionAlreadyBound(
                 fdecl.name.clone(),
                 fdecl.span.clone(),
             ));
         }
+        // Recorded before the merge expression is checked so that the expression can
+        // mention the function itself; `EGraph::process_program_internal` takes the
+        // entry out again if the declaration is rejected.
+        self.func_types.insert(fdecl.name.clone(), Arc::new(ftype));
         let mut bound_vars = IndexMap::default();
         let output_type = self.sorts.get(&fdecl.schema.output).unwrap();
         if fdecl.subtype == FunctionSubtype::Constructor && !output_type.is_eq_sort() {
